@@ -406,3 +406,38 @@ def parallel_to_coverage(ctx, repo):
                 ctx.ob("PAR-COV", f.where, f"{obj}.{arr} (indexed by {cov}): {how}", ok, "" if ok else f"records are not in the order of {glyphs_expr}: every glyph gets another glyph's record")
 
 ALL.append(parallel_to_coverage)
+
+
+# ---------------------------------------------------------------------------
+# FEA-num: numbers the parser read are printed under `is not None`, not under truthiness
+# ---------------------------------------------------------------------------
+def optional_numbers(ctx, repo):
+    ctx.rule("FEA-num", "an optional attribute of a feaLib ast node that the parser fills from a number token (contourpoint, langID, ...) is tested with `is not None` before it is printed by asFea(): `if self.contourpoint:` drops the legal value 0, and the reparsed statement compiles to another table", floor=1)
+    pm, am = repo.mod("feaLib/parser.py"), repo.mod("feaLib/ast.py")
+    NUMCALLS = ("expect_number_", "expect_decimal_", "expect_float_", "expect_any_number_")
+    nums = set()
+    for q, f in pm.funcs.items():
+        for st in walk_no_nested(f.node):
+            if isinstance(st, ast.Assign) and isinstance(st.targets[0], ast.Name) and isinstance(st.value, ast.Call) and isinstance(st.value.func, ast.Attribute) and st.value.func.attr in NUMCALLS:
+                nums.add(st.targets[0].id)
+    if "contourpoint" not in nums:
+        raise AnalysisError("FEA-num: the parser no longer binds `contourpoint` from a number token (anchor confirmed by hand)")
+    n = 0
+    for x in ast.walk(am.tree):
+        if not isinstance(x, ast.If):
+            continue
+        t = x.test
+        neg = False
+        while isinstance(t, ast.UnaryOp) and isinstance(t.op, ast.Not):
+            t, neg = t.operand, not neg
+        plain = isinstance(t, ast.Attribute) and norm(t.value) == "self" and t.attr in nums
+        explicit = isinstance(t, ast.Compare) and len(t.ops) == 1 and isinstance(t.ops[0], (ast.IsNot, ast.Is)) and isinstance(t.left, ast.Attribute) and norm(t.left.value) == "self" and t.left.attr in nums and isinstance(t.comparators[0], ast.Constant) and t.comparators[0].value is None
+        if not plain and not explicit:
+            continue
+        n += 1
+        ctx.ob("FEA-num", f"feaLib/ast.py:{x.lineno}", f"`if {norm(x.test)}:`", explicit, "" if explicit else "0 is a number: the clause is not printed for it")
+    if n < 1:
+        raise AnalysisError("FEA-num: no test of a parsed optional number found in feaLib/ast.py")
+
+
+ALL.append(optional_numbers)
